@@ -59,7 +59,7 @@ x P1 240107#N7 finished task
 
 - 240105#N6 in section w0
 """,
-        "q.zo": "# Q page\n\n- 240106#Q1 untouched page note\n",
+        "sub/p.zo": "# Q page (same file name as the first page, in a sub-directory)\n\n- 240106#Q1 untouched page note\n",
     }
 
 
@@ -84,7 +84,7 @@ def apply_edit(zd: Path, ev: str, guards: dict) -> bool:
                         return True
         return False
     if ev == "edit_Q1":
-        q = zd / "q.zo"
+        q = zd / "sub/p.zo"
         tq = q.read_text()
         for k in (0, 1):
             if tq.rstrip("\n").endswith(f"note q{k}") or (k == 0 and tq.rstrip("\n").endswith("untouched page note")):
